@@ -138,21 +138,20 @@ def obligations(tier, seed):
         gens = _generators(n)
         allp = list(itertools.permutations(range(n))) if n <= (4 if q else 5) else gens
         # no rejection: every permutation
-        if n <= 5:      # n=6 with the quadratic weights did not finish in 1700 s (path count): outside the thorough bound
-            obs.append(ob_iterfit(n, 2, 'squares', 5, 5, 0, allp if n <= 4 else gens))
+        obs.append(ob_iterfit(n, 2, 'squares', 5, 5, 0, allp if n <= 4 else gens))
         obs.append(ob_iterfit(n, 3, 'zero1', 5, 5, 0, gens))
         obs.append(ob_iterfit(n, 2, 'neg_zero', 2, 2, 0, gens))
     obs.append(ob_iterfit(4, 3, 'few_good', 5, 5, 0, _generators(4)))
     # with rejection
     obs.append(ob_iterfit(4, 2, 'ones', 1, 1, 1, _generators(4)))
     obs.append(ob_iterfit(4, 2, 'squares', 2, 1, 2, _generators(4)))
-    obs.append(ob_iterfit(5, 2, 'ones', 1, 2, 1, _generators(5)[:1]) if not q else ob_iterfit(4, 2, 'ones', 1, 2, 1, _generators(4), nbk=3))
+    obs.append(ob_iterfit(5, 2, 'ones', 1, 2, 1, _generators(5)) if not q else ob_iterfit(4, 2, 'ones', 1, 2, 1, _generators(4), nbk=3))
     obs.append(ob_iterfit(5, 2, 'ones', 1, 1, 2, _generators(5), nbk=3))
     obs.append(ob_iterfit(4, 1, 'squares', 1, 1, 1, _generators(4)))
     if not q:
         obs.append(ob_iterfit(5, 3, 'squares', 1, 1, 2, _generators(5)))
         obs.append(ob_iterfit(5, 2, 'neg_zero', 1, 1, 2, _generators(5)))
-        obs.append(ob_iterfit(5, 2, 'ones', 2, 1, 2, _generators(5)[:1]))      # (n=6 with rejection: over the 1700 s budget)
+        obs.append(ob_iterfit(6, 2, 'ones', 1, 1, 2, _generators(6)))
         obs.append(ob_iterfit(6, 4, 'squares', 2, 2, 1, _generators(6)))
         obs.append(ob_iterfit(5, 2, 'zero1', 5, 1, 2, _generators(5)))
     return obs
